@@ -92,6 +92,50 @@ func checkOneLayout(name string, file []byte, w *wl.Workload, indexed bool) (int
 			}
 		}
 	}
+	// the same reads asked of ONE Reader, restricted ones first: the answers may not depend on the layout any
+	// more than those of fresh Readers do
+	if indexed && usable {
+		one, err := mcap.NewReader(bytesReader(file))
+		if err != nil {
+			return reads, pk.Failf("open", "%s: NewReader: %v", name, err)
+		}
+		var topics []string
+		if cs := w.Channels(); len(cs) > 0 {
+			topics = []string{cs[len(cs)/2].Topic}
+		}
+		var s0, e0 uint64
+		if len(all) > 0 {
+			s0, e0 = all[len(all)/2].M.LogTime, all[len(all)/2].M.LogTime+1
+		}
+		steps := []struct {
+			topics []string
+			window bool
+			order  mcap.ReadOrder
+		}{{topics, false, mcap.LogTimeOrder}, {nil, true, mcap.FileOrder}, {nil, false, mcap.FileOrder}, {nil, false, mcap.ReverseLogTimeOrder}, {topics, false, mcap.FileOrder}}
+		for si, stp := range steps {
+			opts := []mcap.ReadOpt{mcap.InOrder(stp.order)}
+			if stp.topics != nil {
+				opts = append(opts, mc.Topics(stp.topics))
+			}
+			var ws, we uint64
+			if stp.window {
+				ws, we = s0, e0
+				opts = append(opts, mcap.AfterNanos(ws), mcap.BeforeNanos(we))
+			}
+			label := fmt.Sprintf("%s, read #%d on one Reader (topics=%v window=%v order=%d)", name, si, stp.topics, stp.window, stp.order)
+			ir := readOn(one, opts...)
+			reads++
+			if ir.Panic != "" || ir.OpenErr != nil || !errors.Is(ir.Err, io.EOF) {
+				one.Close()
+				return reads, pk.Failf("indexed-error", "%s fails: panic=%q open=%v err=%v", label, ir.Panic, ir.OpenErr, ir.Err)
+			}
+			if err := checkSelection(label, ir.Items, wl.Select(all, stp.topics, ws, we, !stp.window), pl, stp.order); err != nil {
+				one.Close()
+				return reads, err
+			}
+		}
+		one.Close()
+	}
 	// Info
 	rd, err := mcap.NewReader(bytesReader(file))
 	if err != nil {
